@@ -806,8 +806,19 @@ impl OutstationSession {
             }
             FragmentType::Broadcast(mode) => {
                 self.state.deferred_read.clear();
-                self.process_broadcast(info.id, database, mode, request)
+                let action = self
+                    .process_broadcast(info.id, database, mode, request)
                     .await;
+
+                // a DISABLE_UNSOLICITED cancels the unsolicited series, also when it arrives by broadcast
+                if request.header.function == FunctionCode::DisableUnsolicited
+                    && action == BroadcastAction::Processed
+                {
+                    return Ok(UnsolicitedWaitResult::Complete(
+                        UnsolicitedResult::ReturnToIdle,
+                    ));
+                }
+
                 Ok(UnsolicitedWaitResult::ReadNext)
             }
             FragmentType::MalformedRequest(_, err) => {
@@ -1964,14 +1975,15 @@ impl OutstationSession {
         database: &mut DatabaseHandle,
         mode: BroadcastConfirmMode,
         request: Request<'_>,
-    ) {
+    ) -> BroadcastAction {
         self.state.last_broadcast_type = Some(mode);
         self.state.broadcast_reported_by = None;
         let action = self
             .process_broadcast_get_action(frame_id, database, request)
             .await;
         self.info
-            .broadcast_received(request.header.function, action)
+            .broadcast_received(request.header.function, action);
+        action
     }
 
     async fn process_broadcast_get_action(
